@@ -325,6 +325,29 @@ func (p *P) Run(src *tape.Source, trace bool) *core.Result {
 				fmt.Sprintf("an input with at least %d nested expressions inside one top-level expression was polled only %d times (documented: the context is checked at the start of every expression, recursively): a cancellation arriving inside it goes unnoticed for the rest of the expression; input %q", famExprs, P, clipS(sql, 120)))
 		}
 	}
+	// --- a context that is done before the call: no result, the context's error -
+	// whatever the input is and whether or not the library gets to a poll
+	for _, E := range []error{context.Canceled, context.DeadlineExceeded} {
+		simhook.PurgeAll()
+		newInst()
+		ctx := simctx.New(0, E)
+		o := call(ctx)
+		r.Evals++
+		r.Faults["already-done/"+map[error]string{context.Canceled: "Canceled", context.DeadlineExceeded: "DeadlineExceeded"}[E]]++
+		if o.tree != nil {
+			r.Fail("cancel-returns-no-tree", entryNames[entry]+" already-done", fmt.Sprintf("context done before the call, input %q: a result was returned", clipS(sql, 120)))
+		}
+		if o.err == nil {
+			r.Fail("cancel-reported", entryNames[entry]+" already-done nil-error", fmt.Sprintf("context done (%v) before the call, input %q: err == nil", E, clipS(sql, 120)))
+		} else if !errors.Is(o.err, E) {
+			r.Fail("cancel-reported", entryNames[entry]+" already-done swallowed-by="+structuredCode(o.err),
+				fmt.Sprintf("context done (%v) before the call, input %q (%d polls in the uncancelled run): errors.Is(err, ctxErr) is false; err = %v", E, clipS(sql, 120), P, o.err))
+		}
+		if pooled {
+			tokenizer.PutTokenizer(tkz)
+			parser.PutParser(par)
+		}
+	}
 	// --- enumerate cancellation points
 	ks := make([]int, 0, P)
 	if P <= 400 {
